@@ -858,6 +858,10 @@ func injectFault(t *rapid.T, c config, m map[string]string) (string, bool) {
 	case "ill-typed":
 		a := rapid.SampledFrom([]string{"flagOn", "i8", "i64", "plainInt", "u16", "u64", "f32", "f64Val", "lvl", "rot", "fullPolicy"}).Draw(t, "attr")
 		v := map[string]string{"flagOn": "maybe", "i8": "seven", "i64": "1.5", "plainInt": "12abc", "u16": "-1", "u64": "ten", "f32": "1.2.3", "f64Val": "fast", "lvl": "LOUD", "rot": "7m", "fullPolicy": "Drop"}[a]
+		if a == "lvl" {
+			// a level range is 'MIN' or 'MIN~MAX' over known names: a missing or unknown side is not a range
+			v = rapid.SampledFrom([]string{"LOUD", "INFO~", "~ERROR", "~", "INFO~LOUD", "LOUD~ERROR", "INFO-ERROR", "INFO..ERROR", "info~ ", "300"}).Draw(t, "badLvl")
+		}
 		probe.del(a)
 		probe.Fields = append(probe.Fields, attr(a, v))
 		return kind + ":" + a + "=" + v, true
